@@ -1144,6 +1144,28 @@ def shrink_candidates(plan):
                 p = copy.deepcopy(plan)
                 p["clients"][ci]["ops"][oi]["text"] = a
                 yield p
+    # 6b. shorter texts by cutting: halves, then single blank-separated words
+    for ci, c in enumerate(plan["clients"]):
+        for oi, op in enumerate(c["ops"]):
+            for key in ("text", "other"):
+                t = op.get(key)
+                if not t or len(t) < 4 or op["kind"] in ("rewriter", "rewriter_default"):
+                    continue
+                cuts = [t[:len(t) // 2], t[len(t) // 2:]]
+                words = t.split(" ")
+                if 2 <= len(words) <= 12:
+                    cuts += [" ".join(words[:i] + words[i + 1:]) for i in range(len(words))]
+                for cut in cuts:
+                    if cut and cut != t:
+                        p = copy.deepcopy(plan)
+                        p["clients"][ci]["ops"][oi][key] = cut
+                        yield p
+    # 6c. two clients with one op each -> one client (only if it still fails)
+    if len(plan["clients"]) == 2 and not any(pt["kind"] == "preempt" for pt in plan["points"]):
+        p = copy.deepcopy(plan)
+        p["clients"] = [{"ops": p["clients"][0]["ops"] + p["clients"][1]["ops"]}]
+        p["start"] = 0
+        yield p
     # 7. earlier points (smaller numbers read better)
     for i, pt in enumerate(plan["points"]):
         if pt["at"] > 1:
